@@ -25,18 +25,35 @@ Definition write_key (T : terms) (k : key) : res (list Z * Z) :=
   else Ok (be32 n ++ k, 4 + Z.of_nat (length k)).
 
 (* read_length_and_key(fp): returns key, new term set, remaining stream.
-   fp.read(n) returns what is left when fewer than n bytes remain (no error). *)
+   Since commit 708c13e a key that is cut short by the end of the data raises IOError (before it, whatever
+   fp.read returned became the key: [read_key_v0] below keeps that reader for the refutation theorem). *)
 Definition read_key (T : terms) (s : list Z) : res (key * terms * list Z) :=
   match un_be32 (firstn 4 s) with
   | None => Err IOErr                                     (* read_fmt: short read *)
   | Some len =>
       let s' := skipn 4 s in
-      (* fp.read(n) never returns more than what is left; min keeps the nat small under vm_compute *)
+      let want := if len =? 0 then 4 else len in
+      if Z.of_nat (length s') <? want then Err IOErr      (* the data ends inside the key *)
+      else
+        let n := Z.to_nat want in
+        let k := firstn n s' in
+        let T' := if (len =? 0) && negb (mem k T) then k :: T else T in
+        Ok (k, T', skipn n s')
+  end.
+
+(* the reader before 708c13e: fp.read(n) returns what is left when fewer than n bytes remain (no error) *)
+Definition read_key_v0 (T : terms) (s : list Z) : res (key * terms * list Z) :=
+  match un_be32 (firstn 4 s) with
+  | None => Err IOErr
+  | Some len =>
+      let s' := skipn 4 s in
       let n := Z.to_nat (Z.min (if len =? 0 then 4 else len) (Z.of_nat (length s'))) in
       let k := firstn n s' in
       let T' := if (len =? 0) && negb (mem k T) then k :: T else T in
       Ok (k, T', skipn n s')
   end.
+Definition read_terms_v0 (T : terms) (s : list Z) : terms :=
+  match read_key_v0 T s with Ok (_, T', _) => T' | Err _ => T end.
 
 (* a history of reads performed earlier in the process (other documents) *)
 Definition read_terms (T : terms) (s : list Z) : terms :=
